@@ -90,7 +90,7 @@ theorem stepAll_worldOk (cfg : Cfg) (hwf : cfg.WF) (beh : Beh) (w : World) (k : 
       obtain ⟨hc, hk⟩ := apiStep_keeps (env := ⟨cfg, beh, op.inst, k⟩) hwf hw hf (fun c0 e => hw _ c0 (by rw [hget, e]))
       exact worldOk_put hw _ _ (fun c0 e => by cases e; exact hk _ hc)
     | destroyManual c name _ hm hget => exact worldOk_put hw _ _ (fun c0 e => by cases e)
-    | destroyAuto c name hm hget => exact worldOk_put hw _ _ (fun c0 e => by cases e)
+    | destroyAuto c name _ hm hget => exact worldOk_put hw _ _ (fun c0 e => by cases e)
     | save c name o hget => exact hw
 
 theorem runFrom_worldOk (cfg : Cfg) (hwf : cfg.WF) (beh : Beh) : ∀ (ops : List Op) (w : World) (k : Nat),
